@@ -27,3 +27,5 @@ for c in $CHECKS; do
 done
 git -C /repo checkout -- .
 git -C /repo status --short | head -3
+# the Gen/* copies were regenerated from the changed tree by ./run: restore them from the clean tree
+for t in /verif/tools/gen_*.py; do python3 $t; done
